@@ -742,6 +742,8 @@ func TestGen(t *testing.T) {
 	id = genPair(t, c, root.Sub(), id)
 	id = 300000
 	id = genHEds(t, c, root.Sub(), id)
+	id = 400000
+	id = genWaypointPair(t, c, id)
 	if err := c.Flush(); err != nil {
 		fmt.Fprintln(os.Stderr, err)
 		t.Fatal(err)
